@@ -428,6 +428,43 @@ func (t *c01Trial) evaluate() []c01Diff {
 	return diffs
 }
 
+// waitEstablished waits (bounded) until, for every pair of live nodes joined by a link that is up and not silently
+// failed, both ends list the other as a connection.
+func (t *c01Trial) waitEstablished(limit time.Duration) bool {
+	deadline := time.Now().Add(limit)
+	for {
+		topo := t.m.Topo()
+		conns := map[string]map[string]bool{}
+		for _, n := range topo.Nodes {
+			conns[n] = map[string]bool{}
+			for _, c := range t.m.Node(n).Inst().Status().Connections {
+				conns[n][c.NodeID] = true
+			}
+		}
+		ok := true
+		for a, adj := range topo.Adj {
+			if t.dead[a] {
+				continue
+			}
+			for b := range adj {
+				if t.dead[b] {
+					continue
+				}
+				if !conns[a][b] || !conns[b][a] {
+					ok = false
+				}
+			}
+		}
+		if ok {
+			return true
+		}
+		if time.Now().After(deadline) {
+			return false
+		}
+		time.Sleep(50 * time.Millisecond)
+	}
+}
+
 // waitRounds waits until every live node having a live link originated k more updates.
 func (t *c01Trial) waitRounds(k int, watchdog time.Duration) bool {
 	base := t.originated()
@@ -485,6 +522,14 @@ func runC01Trial(run *ev.Run, sp *c01Spec, seed int64) {
 		k += int(math.Ceil(float64(c.Idle+10*time.Second) / float64(c.RouteUpdate)))
 	}
 	nominal := time.Duration(k) * c.RouteUpdate
+	// The rounds are counted from the moment the sessions of the live links are up: while a session is being
+	// established each end sends per-connection initialisation updates that look like originated rounds on the
+	// wire, and on a loaded machine (or with delayed control messages) establishing 20 links can take longer than
+	// k such messages. The wait is bounded and is not a verdict: links that never come up (or keep flapping) are
+	// then judged through the tables as before. Waiting longer can only lose violations, never create one.
+	if !t.waitEstablished(45 * time.Second) {
+		run.Count("trials_started_counting_before_all_sessions_were_up", 1)
+	}
 	lastEvent := time.Now()
 	ok1 := t.waitRounds(k, 10*nominal+20*time.Second)
 	// isolated nodes originate nothing on the wire: they get the same number of periods as a floor
